@@ -19,6 +19,13 @@ Theorem C08_accepted_sets_floor : forall s r n ok s' h ops,
 Proof. exact accepted_sets_floor. Qed.
 Print Assumptions C08_accepted_sets_floor.
 
+(* the same when the compaction is served by another Backend on the same store *)
+Theorem C08_accepted_sets_floor_other_backend : forall s r n s' h ops,
+  cwf s -> cstep s (CCompact2 r n) = (s', OCompact h COk) -> c_cur (crun s' ops) < two64 ->
+  h = clamp (c_cur s) 0 r /\ h <= floor_of (c_rec s') /\ h <= floor_of (c_rec (crun s' ops)).
+Proof. exact accepted_sets_floor2. Qed.
+Print Assumptions C08_accepted_sets_floor_other_backend.
+
 (* List / limited List / Count / scanner Count / ListByStream served at a revision below the floor
    return the error, and leave the state alone *)
 Theorem C08_below_refused : forall s op r,
@@ -53,7 +60,15 @@ Print Assumptions C08_oracle_sound.
 
 (* non-vacuity *)
 Definition ex_s0 : cstate := mkC 112 0 None.
-Definition ex_hist : list cop := [CCompact 111 1 true; CCompact 103 1 true; CWrite 3; CCompact 0 2 true].
+Definition ex_hist : list cop := [CCompact 111 1 true; CCompact 103 1 true; CWrite 3; CCompact2 107 2; CCompact 0 2 true].
+(* high / low / in-between with several ranges per Compact: the record after every step *)
+Example C08_ex_zigzag :
+  map (fun ops => floor_of (c_rec (crun ex_s0 ops)))
+      [[CCompact 108 3 true]; [CCompact 108 3 true; CCompact 103 3 true];
+       [CCompact 108 3 true; CCompact 103 3 true; CCompact 106 3 true];
+       [CCompact 108 3 true; CCompact 103 3 true; CCompact2 110 2; CCompact 106 3 true]]
+  = [108; 108; 108; 110].
+Proof. vm_compute. reflexivity. Qed.
 Example C08_ex_wf : cwf ex_s0 /\ c_cur (crun ex_s0 ex_hist) < two64.
 Proof. split; [left; reflexivity|vm_compute; reflexivity]. Qed.
 (* the witness of fix 1f7f45b: Compact 111, Compact 103 leaves the floor at 111 and List at 105 is refused *)
